@@ -38,6 +38,8 @@ VOCAB = set(x for v in SYN.values() for x in v) | {"tilt_x", "tilt_y", "tilt_z",
 def run(R):
     R.assume("real arithmetic where |d| != 0, wavelength != 0; generic branch of 'if chi != 0 / wedge != 0 / t != 0' tests")
     mods = {"transform": pyfacts.module(R, TR), "point_by_point": pyfacts.module(R, PBP)}
+    if R.want("C01.R11"):      # write sets first: positive evidence that must be reported even when the value numbering cannot read a rewritten kernel
+        r11(R)
     if R.want("C01.R6"):
         R.rule("C01.R6", "the two 'omp parallel for' loops of cdiffraction.c: scalars/arrays private, shared writes only at row i (E2)")
         tus = cfront.load(R.root, files=["cdiffraction.c"])
@@ -678,6 +680,86 @@ def rg_compute_gv(R, rule):
             if nm in ("compute_tth_eta_from_xyz", "compute_g_vectors"):
                 R.check("om * sign" in txt or "sign * om" in txt or "omega_calc" in txt, rule, RG, c.lineno, "refinegrains.compute_gv", "%s uses om*sign (or the fitted omega)" % nm,
                         "the omega sign is dropped on this call")
+
+
+# --------------------------------------------------------------------------------------------------
+def c_written_params(f, summaries):
+    """names of the pointer parameters of C function f that f may store through: direct stores A[..] = / *A = / A[..]++, stores through a
+    local pointer that was assigned an address inside the parameter (d = A[i]; d[0] = ...), the destination of memcpy / memmove /
+    memset, and arguments handed to a callee in a position the callee writes (summaries: name -> set of parameter positions)."""
+    from engine.cfront import all_exprs, base_var
+    params = {p.name for p in f.params if p.ty and ("*" in p.ty or "[" in p.ty)}
+    alias = {}
+
+    def roots(e):
+        b = base_var(e)
+        if b is None and e is not None and e.k == "un" and e.op == "&":
+            b = base_var(e.a[0])
+        if b is None:
+            return set()
+        if b.name in params:
+            return {b.name}
+        return set(alias.get(b.name, ()))
+    written = set()
+    for _ in range(4):                                   # aliases of aliases
+        for st, x in all_exprs(f.body):
+            if x.k == "asg" and x.op == "=" and x.a[0].k == "var" and x.a[0].ty and "*" in x.a[0].ty:
+                r = roots(x.a[1])
+                if r:
+                    alias.setdefault(x.a[0].name, set()).update(r)
+    for st, x in all_exprs(f.body):
+        if x.k in ("asg", "incdec") and x.a[0].k != "var":
+            written |= roots(x.a[0])
+        if x.k == "call":
+            pos = summaries.get(x.name)
+            if pos is None and x.name in ("memcpy", "memmove", "memset"):
+                pos = {0}
+            for j, a in enumerate(x.a):
+                if pos is not None and j in pos:
+                    written |= roots(a)
+    return written
+
+
+def r11(R):
+    """The lab-coordinate array is computed once per parameter set and handed to the g-vector kernels again for every grain
+    (refinegrains.assignlabels, Ctransform.xyz2gv then xyz2geometry): a kernel that stores into it - through a row pointer
+    d = xlylzl[i] handed to an in-place helper - shifts the caller's coordinates by the first grain's origin, and every later grain
+    and every later call gets g-vectors of the wrong positions.  Write sets are computed with file-local helpers read in place."""
+    import os
+    from engine import iface
+    R.rule("C01.R11", "the geometry kernels of cdiffraction.c store only into the arrays their .pyf block declares intent(out/inout): the "
+                      "pixel / lab-coordinate / omega / translation inputs are never written (not directly, not through a local row pointer "
+                      "or an in-place helper)")
+    tus = cfront.load(R.root, files=["cdiffraction.c"])
+    fns, order = iface.crack(R.path("src/_cImageD11.pyf"))
+    raw = {g.name: g for g in cfront.all_funcs(tus)}
+    summaries = {}
+    for _ in range(3):
+        for name, g in raw.items():
+            if g.body is None:
+                continue
+            w = c_written_params(g, summaries)
+            summaries[name] = {k for k, p_ in enumerate(g.params) if p_.name in w}
+    n = 0
+    for name in sorted(raw):
+        blk = fns.get(name)
+        if blk is None or raw[name].file != "src/cdiffraction.c":
+            continue
+        f = cfront.find_func(tus, name, "src/cdiffraction.c")
+        w = c_written_params(f, summaries)
+        for k, prm in enumerate(f.params):
+            v = blk["vars"].get(blk["args"][k]) if k < len(blk["args"]) else None
+            if v is None or "dimension" not in v:
+                continue
+            n += 1
+            intents = set(v.get("intent", []))
+            isout = bool(intents & {"out", "inout", "inplace"})
+            R.check(isout or prm.name not in w, "C01.R11", "src/cdiffraction.c", f.line if hasattr(f, "line") else 1, name,
+                    "%s(%s): pyf intent %s, %s by the C code" % (name, prm.name, sorted(intents), "written" if prm.name in w else "not written"),
+                    "the kernel stores into its input array '%s' (declared %s in the .pyf): the caller's array - the lab coordinates that "
+                    "are reused for the next grain / the next call - is modified, so the same call repeated, or the next grain, computes "
+                    "g-vectors from shifted positions and the fast route no longer equals the Python formulas" % (prm.name, sorted(intents)))
+    R.floor("C01.R11", 8)
 
 
 # --------------------------------------------------------------------------------------------------
